@@ -64,10 +64,10 @@ def build(with_checks=True):
     if with_checks:
         m["checks"] = [
             check("C18",
-                  "Seeded exploration, about 49 000 simulated runs per quick invocation: (1) every operation history of up to three operations over a 12-operation alphabet x 4 size limits x 2 clock policies x 2 download modes (30 144 runs, exhaustive for that small scope); (2) 9 000 seeded random histories (get/remove/purge/reopen/touch/age/user-read/foreign files and symbolic links/edit-config/settings changed on the running cache through the config properties/remote update/chdir, 1-66 uris incl. pairs that collide under an abbreviated hash or differ only in letter case of the bucket, duplicate and wide requests, cache entries pre-seeded as symbolic links), each run in both download modes under a seeded thread scheduler (sticky/uniform/PCT/straggler, optional line-level pre-emption), four clock policies incl. ties and backward steps, time zones, a skew between the process clock and the clock stamping files, relative/~/odd cache paths, a cache directory behind a symbolic link, module-level and object API; (3) clock sweeps of 56 histories. Every operation is checked against an executable reference model: content, hit-without-fetch, injectivity, entry count, size bound and config consistency, LRU relation and recency refresh, foreign files, a second named cache, mode equivalence. Sampling outside the small scope, not proof.",
+                  "Seeded exploration, about 51 000 simulated runs per quick invocation: (1) every operation history of up to three operations over a 12-operation alphabet x 4 size limits x 2 clock policies x 2 download modes (30 144 runs, exhaustive for that small scope); (2) 9 000 seeded random histories (get/remove/purge/reopen/touch/age/user-read/foreign files and symbolic links/edit-config/settings changed on the running cache through the config properties/remote update/chdir, several named directive functions managed mid-session, 1-95 uris incl. pairs that collide under an abbreviated hash or differ only in letter case of the bucket, duplicate and wide requests, mass evictions of more than 64 entries in one pass, cache entries pre-seeded as symbolic links), each run in both download modes under a seeded thread scheduler (sticky/uniform/PCT/straggler, optional line-level pre-emption), four clock policies incl. ties and backward steps, time zones, a skew between the process clock and the clock stamping files, relative/~/odd cache paths, a cache directory behind a symbolic link, module-level and object API; (3) clock sweeps of 56 histories; (4) 1 500 further seeded histories in an interpreter started with -O (asserts compiled out of the code under test). Every operation is checked against an executable reference model: content, hit-without-fetch, injectivity, entry count, size bound and config consistency, LRU relation and recency refresh, foreign files, a second named cache, mode equivalence. Sampling outside the small scope, not proof.",
                   "Trusted: the simulator (SimFS POSIX model incl. symbolic links, validated differentially against the host fs in every run; SimPool validated against multiprocessing.pool.ThreadPool), the reference model, CPython. Stubs: thread pool / executor / threads and synchronisation primitives (validated against threading and queue), clock, HTTP server (content, streamed, raw, gzip, with or without Content-Length, Session/head/request), object stores, tqdm. Real: all of ocean_science_utilities.filecache, shutil, os.path, os.walk, pathlib, tempfile, json, io buffering. Out of scope: concurrent callers of one cache object, two processes on one directory, power loss."),
             check("C19",
-                  "Seeded exploration plus systematic fault enumeration, about 32 000 simulated runs per quick invocation: (1) every history of up to two operations over 7 operations on 4 keys (sim/file/https, post-process, validate) x 2 limits x tolerant/strict, each re-run with EVERY mutating file-system event as a crash point (plus torn-write variants) and EVERY applicable single fault at every download position (about 12 500 runs); (2) 9 000 seeded random histories with 0-3 faults out of 32 kinds (not-found before/after partial write, exceptions before/mid/after, returned False, StopIteration, KeyboardInterrupt, HTTP 404/5xx/drop/timeouts also persistent, EIO/ENOSPC/short write/EMFILE/rename failure/disk full, post-processor failures incl. its own not-found, of varying exception classes, validator failures and crashes, the tolerance setting switched mid-session, HTTP statuses 404/410/403/401/5xx/429), one or two process crashes per history with torn writes followed by reopen (the second crash while reopening or in the retry), zombie pool workers incl. slow stragglers whose late attempts fail; (3) crash/fault/zombie-schedule sweeps of 56 random histories. After every history every key is probed in the same session and after a reopen. Oracle: outcome (omit or raise), every served path holds complete correct bytes, bystanders intact, retry refetches, rejected entries are never served, validators are consulted, what the cache has registered stays within the size in force across a request.",
+                  "Seeded exploration plus systematic fault enumeration, about 36 000 simulated runs per quick invocation: (1) every history of up to two operations over 7 operations on 4 keys (sim/file/https, post-process, validate) x 2 limits x tolerant/strict, each re-run with EVERY mutating file-system event as a crash point (plus torn-write variants) and EVERY applicable single fault at every download position (about 12 500 runs); (2) 9 000 seeded random histories with 0-4 faults out of 33 kinds (not-found before/after partial write, exceptions before/mid/after, returned False, StopIteration, KeyboardInterrupt, HTTP 404/5xx/drop/timeouts also persistent, EIO/ENOSPC/short write/EMFILE/rename failure/refused deletion/disk full, post-processor failures incl. its own not-found, of varying exception classes, validator failures and crashes, several named post-processors and validators, the tolerance setting switched mid-session, HTTP statuses 404/410/403/401/5xx/429), one or two process crashes per history with torn writes followed by reopen (the second crash while reopening or in the retry), zombie pool workers incl. slow stragglers whose late attempts fail; (3) crash/fault/zombie-schedule sweeps of 56 random histories; (4) 1 500 further seeded histories in an interpreter started with -O. After every history every key is probed in the same session and after a reopen. Oracle: outcome (omit or raise), every served path holds complete correct bytes, bystanders intact, retry refetches, rejected entries are never served, validators are consulted, what the cache has registered stays within the size in force across a request.",
                   "Trusted: as for C18, plus the crash model (process crash, OS survives: applied writes are durable, user-space buffers are lost; power loss not modelled) and the fault vocabulary of DESIGN sections 6 and 15."),
         ]
     return m
